@@ -170,6 +170,17 @@ pub fn profile_spec(spec: &str) -> VecCfg {
             "pre_c2" => {
                 c.prefill = vec![VecOp::Push(2), VecOp::Commit(1), VecOp::Push(2), VecOp::Commit(1)]
             }
+            // two commits, then a commit that deletes the first slot
+            "pre_c2h" => {
+                c.prefill = vec![
+                    VecOp::Push(2),
+                    VecOp::Commit(1),
+                    VecOp::Push(2),
+                    VecOp::Commit(1),
+                    VecOp::Delete(Ix::Zero),
+                    VecOp::Commit(1),
+                ]
+            }
             "holecursor" => {
                 c.reads = true;
                 c.holed_cursor = true;
@@ -312,6 +323,7 @@ fn plan(property: &str, tier: &str) -> Vec<(&'static str, &'static str, usize)> 
                     // continuations from a state with two commits behind it
                     ("pco", "rb_dense+pre_c2+c4", 5),
                     ("bytes", "rb_raw+pre_c2+c4", 5),
+                    ("bytes", "rb_raw+pre_c2h+c5", 4),
                 ]
             } else {
                 vec![
@@ -412,7 +424,9 @@ fn plan(property: &str, tier: &str) -> Vec<(&'static str, &'static str, usize)> 
                     ("bytes", "rb_raw+reads", 5),
                     ("pco", "dense+reads", 3),
                     ("bytes", "raw+reads", 4),
-                    // start states: three written values; one value short of a page
+                    // start states: two commits; three written values; one value short of a page
+                    ("bytes", "rb_raw+reads+pre_c2+c5", 4),
+                    ("bytes", "rb_raw+reads+pre_c2h+c5", 4),
                     ("bytes", "raw+reads+pre_w3", 3),
                     ("pco", "dense+reads+pre_pm1", 3),
                 ]
@@ -429,6 +443,9 @@ fn plan(property: &str, tier: &str) -> Vec<(&'static str, &'static str, usize)> 
                     ("pco", "dense+reads+pre_pm1", 4),
                     ("pco", "dense+reads+pre_p1", 4),
                     ("bytes", "rb_raw+reads", 6),
+                    ("bytes", "rb_raw+reads+pre_c2+c5", 6),
+                    ("bytes", "rb_raw+reads+pre_c2h+c5", 5),
+                    ("pco", "rb_dense+reads+pre_c2+c5", 5),
                     ("pco", "rb_dense+reads", 6),
                     ("bytes", "raw+holecursor", 3),
                 ]
